@@ -653,3 +653,164 @@ Proof.
     unfold rendered. rewrite Hlab. unfold qdec. rewrite Ed. cbn [option_map option_eqb]. rewrite Ev.
     rewrite String.eqb_refl, Hid. cbn [andb]. exact Hcl.
 Qed.
+
+(** ** The pinned printer agrees with the patched one when no text needs escaping *)
+Lemma escape_quotes_none s : contains_char c_dq s = false -> escape_quotes s = s.
+Proof.
+  unfold escape_quotes. change """"%char with c_dq.
+  induction s as [|c s IH]; [reflexivity|]. cbn [contains_char replace_char].
+  destruct (Ascii.eqb c c_dq); [discriminate|]. intro H. now rewrite IH.
+Qed.
+
+Lemma escape_dot_safe s : needs_dot_escape s = false -> escape_dot s = s.
+Proof.
+  unfold needs_dot_escape. intro H. apply orb_false_iff in H as [H1 H2]. unfold escape_dot.
+  rewrite (escape_backslashes_none s H2). now apply escape_quotes_none.
+Qed.
+
+Lemma fold_children_ext F G l : (forall c v, F c v = G c v) -> forall vis, fold_children F l vis = fold_children G l vis.
+Proof.
+  intro H. induction l as [|c rest IH]; intro vis; [reflexivity|]. cbn [fold_children]. rewrite H.
+  destruct (G c vis) as [a| | |]; try reflexivity. cbn [obind]. now rewrite IH.
+Qed.
+
+Definition inputs_safe (r : regex) : Prop := forall inp, In inp (r_inputs r) -> rinput_raw_unsafe inp = false.
+
+Lemma rx_items_variant pool :
+  (forall rid sr, assocN rid pool = Some sr -> inputs_safe sr) ->
+  forall f r node parent p vis, inputs_safe r ->
+    rx_items f pinned pool r node parent p vis = rx_items f patched pool r node parent p vis.
+Proof.
+  intro Hpool. induction f as [|f IH]; intros r node parent p vis Hs; [reflexivity|].
+  cbn [rx_items]. destruct (nthN (r_nodes r) node) as [n|]; [|reflexivity].
+  assert (Hin : forall pos inp, nthN (r_inputs r) pos = Some inp -> rinput_raw_unsafe inp = false).
+  { intros pos inp E. apply Hs. unfold nthN in E. exact (nth_error_In _ _ E). }
+  destruct n as [|pos|pos|pos|pos|pos|children|children|c]; try reflexivity.
+  - unfold rx_input. destruct (nthN (r_inputs r) pos) as [inp|] eqn:Ei; [|reflexivity]. cbn [obind].
+    destruct inp as [lit [d|]|?|?|?]; try reflexivity; specialize (Hin _ _ Ei); cbn [rinput_raw_unsafe] in Hin.
+    + apply orb_false_iff in Hin as [H1 H2]. cbn [v_rx_escape pinned patched].
+      now rewrite (escape_dot_safe _ H1), (escape_dot_safe _ H2).
+    + cbn [v_rx_escape pinned patched]. now rewrite (escape_dot_safe _ Hin).
+  - unfold rx_input. destruct (nthN (r_inputs r) pos) as [inp|] eqn:Ei; [|reflexivity]. cbn [obind].
+    destruct inp as [?|name|?|?]; try reflexivity. specialize (Hin _ _ Ei). cbn [rinput_raw_unsafe] in Hin.
+    cbn [v_rx_escape pinned patched]. now rewrite (escape_dot_safe _ Hin).
+  - unfold rx_input. destruct (nthN (r_inputs r) pos) as [inp|] eqn:Ei; [|reflexivity]. cbn [obind].
+    destruct inp as [?|?|?|rid]; try reflexivity. destruct (assocN rid pool) as [sr|] eqn:Ep; [|reflexivity].
+    destruct (memN rid vis); [reflexivity|]. now rewrite (IH sr _ _ _ _ (Hpool rid sr Ep)).
+  - change (fix go (l visited : list N) {struct l} : outcome unit (list item * list N) :=
+              match l with
+              | [] => Ok ([], visited)
+              | c :: rest => do a <- rx_items f pinned pool r c (Some (node_id p node)) p visited;
+                             do b <- go rest (snd a); Ok ((fst a ++ fst b)%list, snd b)
+              end)
+      with (fold_children (fun c v => rx_items f pinned pool r c (Some (node_id p node)) p v)).
+    change (fix go (l visited : list N) {struct l} : outcome unit (list item * list N) :=
+              match l with
+              | [] => Ok ([], visited)
+              | c :: rest => do a <- rx_items f patched pool r c (Some (node_id p node)) p visited;
+                             do b <- go rest (snd a); Ok ((fst a ++ fst b)%list, snd b)
+              end)
+      with (fold_children (fun c v => rx_items f patched pool r c (Some (node_id p node)) p v)).
+    rewrite (fold_children_ext _ (fun c v => rx_items f patched pool r c (Some (node_id p node)) p v)); [reflexivity|].
+    intros c v. now apply IH.
+  - change (fix go (l visited : list N) {struct l} : outcome unit (list item * list N) :=
+              match l with
+              | [] => Ok ([], visited)
+              | c :: rest => do a <- rx_items f pinned pool r c (Some (node_id p node)) p visited;
+                             do b <- go rest (snd a); Ok ((fst a ++ fst b)%list, snd b)
+              end)
+      with (fold_children (fun c v => rx_items f pinned pool r c (Some (node_id p node)) p v)).
+    change (fix go (l visited : list N) {struct l} : outcome unit (list item * list N) :=
+              match l with
+              | [] => Ok ([], visited)
+              | c :: rest => do a <- rx_items f patched pool r c (Some (node_id p node)) p visited;
+                             do b <- go rest (snd a); Ok ((fst a ++ fst b)%list, snd b)
+              end)
+      with (fold_children (fun c v => rx_items f patched pool r c (Some (node_id p node)) p v)).
+    rewrite (fold_children_ext _ (fun c v => rx_items f patched pool r c (Some (node_id p node)) p v)); [reflexivity|].
+    intros c v. now apply IH.
+Qed.
+
+Lemma assocN_In {V} k (v : V) l : assocN k l = Some v -> In (k, v) l.
+Proof.
+  induction l as [|[k' v'] r IH]; [discriminate|]. cbn. destruct (k =? k')%N eqn:E.
+  - intro H. injection H as ->. apply N.eqb_eq in E. subst. now left.
+  - intro H. right. now apply IH.
+Qed.
+
+Theorem regex_variants_agree pool r :
+  known_rx_all pool r = false -> of_regex pool r = of_regex_with patched pool r.
+Proof.
+  unfold known_rx_all. intro H. apply orb_false_iff in H as [H1 H2].
+  assert (Hf : forall {A} (f : A -> bool) l x, existsb f l = false -> In x l -> f x = false).
+  { intros A f l x He Hin. destruct (f x) eqn:E; [|reflexivity].
+    assert (existsb f l = true) by (apply existsb_exists; now exists x). congruence. }
+  unfold of_regex, of_regex_with, regex_items. rewrite rx_items_variant; [reflexivity| |].
+  - intros rid sr Ea inp Hin. apply assocN_In in Ea. pose proof (Hf _ _ _ (rid, sr) H2 Ea) as Hq. cbn [snd] in Hq.
+    exact (Hf _ _ _ inp Hq Hin).
+  - intros inp Hin. exact (Hf _ _ _ inp H1 Hin).
+Qed.
+
+(** ** The executable well-formedness check implies the hypotheses of the theorem *)
+Lemma rx_reach_sound r : forall f n m, In m (rx_reach f r n) -> reach_from r n m.
+Proof.
+  induction f as [|f IH]; intros n m H; [destruct H|]. cbn [rx_reach] in H. destruct H as [<-|H]; [constructor|].
+  destruct (nthN (r_nodes r) n) as [[| | | | | |l|l|]|] eqn:E; try destruct H.
+  - apply in_flat_map in H as [c [Hc Hm]]. exact (rf_cat r n l c m E Hc (IH _ _ Hm)).
+  - apply in_flat_map in H as [c [Hc Hm]]. exact (rf_or r n l c m E Hc (IH _ _ Hm)).
+Qed.
+
+Lemma rnode_leaf_eqb_eq n inp pos : rnode_leaf_eqb n (rx_leaf_for inp pos) = true -> n = leaf_for inp pos.
+Proof.
+  destruct inp, n; cbn; intro H; try discriminate; apply N.eqb_eq in H; now subst.
+Qed.
+
+Lemma rx_cover_from_sound r reach : forall inputs pos0,
+  rx_cover_from r reach pos0 inputs = true ->
+  forall k inp, nth_error inputs k = Some inp ->
+    exists m, In m reach /\ nthN (r_nodes r) m = Some (leaf_for inp (pos0 + N.of_nat k)).
+Proof.
+  induction inputs as [|x rest IH]; intros pos0 H k inp E; [destruct k; discriminate|].
+  cbn [rx_cover_from] in H. apply andb_true_iff in H as [H1 H2]. destruct k as [|k].
+  - cbn in E. injection E as ->. apply existsb_exists in H1 as [m [Hm Hn]]. exists m. split; [exact Hm|].
+    destruct (nthN (r_nodes r) m) as [n|]; [|discriminate]. rewrite N.add_0_r. f_equal. now apply rnode_leaf_eqb_eq.
+  - cbn in E. destruct (IH _ H2 k inp E) as [m [Hm Hn]]. exists m. split; [exact Hm|]. rewrite Hn. do 2 f_equal. lia.
+Qed.
+
+Lemma rx_cover_b_sound r : rx_cover_b r = true -> rx_cover r.
+Proof.
+  unfold rx_cover_b, rx_cover. intros H pos inp E. unfold nthN in E.
+  destruct (rx_cover_from_sound r _ _ _ H _ _ E) as [m [Hm Hn]]. exists m. split; [exact (rx_reach_sound r _ _ _ Hm)|].
+  rewrite Hn. now rewrite N.add_0_l, N2Nat.id.
+Qed.
+
+Lemma rx_flat_b_sound r : rx_flat_b r = true -> flat r.
+Proof.
+  unfold rx_flat_b, flat. intros H m pos E. rewrite forallb_forall in H. unfold nthN in E.
+  specialize (H _ (nth_error_In _ _ E)). discriminate H.
+Qed.
+
+Lemma rx_wf_b_sound pool r :
+  rx_wf_b pool r = true ->
+  pool_flat pool /\ rx_cover r /\ forall rid sr, assocN rid pool = Some sr -> rx_cover sr.
+Proof.
+  unfold rx_wf_b. intro H. apply andb_true_iff in H as [H1 H2]. rewrite forallb_forall in H2.
+  split; [|split; [now apply rx_cover_b_sound|]].
+  - intros rid sr E. apply assocN_In in E. specialize (H2 _ E). cbn [snd] in H2. apply andb_true_iff in H2 as [A _].
+    now apply rx_flat_b_sound.
+  - intros rid sr E. apply assocN_In in E. specialize (H2 _ E). cbn [snd] in H2. apply andb_true_iff in H2 as [_ B].
+    now apply rx_cover_b_sound.
+Qed.
+
+Theorem regex_dot_patched_b pool r text :
+  rx_wf_b pool r = true -> of_regex_with patched pool r = Ok text ->
+  exists g, read text = Some g /\ regex_ok g (spec_pool pool) (spec_items r).
+Proof.
+  intros Hwf H. destruct (rx_wf_b_sound pool r Hwf) as [A [B C]].
+  destruct (regex_dot_patched pool r text A H) as [g [Hr Hok]]. exists g. split; [exact Hr|now apply Hok].
+Qed.
+
+Theorem regex_dot_pinned_b pool r text :
+  rx_wf_b pool r = true -> known_rx_all pool r = false -> of_regex pool r = Ok text ->
+  exists g, read text = Some g /\ regex_ok g (spec_pool pool) (spec_items r).
+Proof. intros Hwf Hk H. rewrite (regex_variants_agree pool r Hk) in H. now apply regex_dot_patched_b. Qed.
